@@ -1634,3 +1634,31 @@ CONTROLS['C13'] += [
     M('c13-plural-returns-swapped', 'placement/util.py',
       "    return required_aggs, forbidden_aggs\n", "    return forbidden_aggs, required_aggs\n", 'R13.'),
 ]
+
+RCX = O + 'research_context.py'
+_LIM_OLD = ("        if self._limit and self._limit < len(alloc_request_objs):\n"
+            "            if self._ctx.config.placement.randomize_allocation_candidates:\n"
+            "                alloc_request_objs = random.sample(\n"
+            "                    alloc_request_objs, self._limit)\n"
+            "            else:\n"
+            "                alloc_request_objs = alloc_request_objs[:self._limit]\n")
+CONTROLS['C20'] += [
+    B('c20-benign-alias-and-hoisted-flag', RCX, _LIM_OLD,
+      "        randomize = self._ctx.config.placement.randomize_allocation_candidates\n"
+      "        if self._limit and self._limit < len(alloc_request_objs):\n"
+      "            limited_objs = alloc_request_objs[:self._limit]\n"
+      "            if randomize:\n"
+      "                limited_objs = random.sample(alloc_request_objs, self._limit)\n"
+      "            alloc_request_objs = limited_objs\n"),
+    M2('c20-seed-summaries-from-unsampled-list',
+       [(RCX, _LIM_OLD,
+         "        randomize = self._ctx.config.placement.randomize_allocation_candidates\n"
+         "        if self._limit and self._limit < len(alloc_request_objs):\n"
+         "            limited_objs = alloc_request_objs[:self._limit]\n"),
+        (RCX, "            for aro in alloc_request_objs:\n                for arr in aro.resource_requests:\n"
+              "                    alloc_req_root_uuids.add(\n                        arr.resource_provider.root_provider_uuid)\n",
+              "            for aro in limited_objs:\n                for arr in aro.resource_requests:\n"
+              "                    alloc_req_root_uuids.add(\n                        arr.resource_provider.root_provider_uuid)\n"
+              "            if randomize:\n                limited_objs = random.sample(alloc_request_objs, self._limit)\n"
+              "            alloc_request_objs = limited_objs\n")], 'R20.4'),
+]
